@@ -221,18 +221,40 @@ def same(a, b) -> bool:
     return all((u is None and v is None) or (u is not None and v is not None and torch.equal(u, v)) for u, v in zip(pa, pb))
 
 
-def same_up_to_accumulation_order(a, b, rel: float = 1e-5) -> bool:
+def grads64(gm: Callable, x: torch.Tensor, seed: int):
+    """Gradients of the ORIGINAL module computed in float64: the yardstick for how much float32 rounding
+    (and therefore a float32 re-association) can move the gradients of this particular graph."""
+    import copy
+
+    g64 = copy.deepcopy(gm).double()
+    params = list(g64.parameters())
+    xi = x.double().requires_grad_()
+    torch.manual_seed(seed)
+    y = g64(xi)
+    y = y[0] if isinstance(y, tuple) else y
+    up = torch.randn(y.shape, generator=torch.Generator().manual_seed(seed + 1)).double()
+    y.backward(up)
+    return xi.grad, [p.grad for p in params]
+
+
+def same_up_to_accumulation_order(a, b, truth=None, factor: float = 64.0) -> bool:
     """Outputs bitwise; gradients equal up to float32 re-association: the straight-through nodes add autograd nodes,
-    which legitimately permutes the order in which the gradients of a tensor with three or more consumers are summed."""
+    which legitimately permutes the order in which the gradients of a tensor with three or more consumers are summed.
+    The admissible distance is conditioned on the graph: `factor` x the distance of the ORIGINAL float32 gradients from
+    the float64 gradients (never less than 2^-20 of the gradient's magnitude) -- a re-association is one more float32
+    rounding of the same computation, so it moves the result by the same order as the float32 error already present."""
     ya, ga, pa = a
     yb, gb, pb = b
     if not torch.equal(ya, yb):
         return False
-    def close(u, v):
+    tg, tp = truth if truth is not None else (None, [None] * len(pb))
+    def close(u, v, t):
         if u is None or v is None:
             return u is None and v is None
-        return bool((u - v).abs().max() <= rel * max(1e-30, float(v.abs().max())))
-    return close(ga, gb) and all(close(u, v) for u, v in zip(pa, pb))
+        mag = max(1e-30, float(v.abs().max()))
+        base_err = float((v.double() - t).abs().max()) if t is not None else 0.0
+        return bool(float((u - v).abs().max()) <= max(factor * base_err, 2.0 ** -20 * mag))
+    return close(ga, gb, tg) and all(close(u, v, t) for u, v, t in zip(pa, pb, tp))
 
 
 def graph_cases(rep: Report, rng: random.Random, n: int) -> None:
@@ -275,8 +297,8 @@ def graph_cases(rep: Report, rng: random.Random, n: int) -> None:
         if not same(r_t, r_ref):
             rep.violation(f"transformed module differs (bitwise) from the reference built from the spec's recipe; {label}", case, key=f"differs_from_recipe:{kind}")
             continue
-        if kind == "lossless" and not same_up_to_accumulation_order(r_t, base):
-            rep.violation(f"lossless format does not reproduce the original outputs/gradients bit for bit; {label}", case, key="lossless")
+        if kind == "lossless" and not same_up_to_accumulation_order(r_t, base, grads64(gm, x, seed)):
+            rep.violation(f"lossless format does not reproduce the original outputs (bitwise) / gradients (up to re-association); {label}", case, key="lossless")
         if e["nquant"] == 0 and not same(r_t, base):  # nothing inserted: bitwise
             rep.violation(f"graph without linear/attention ops changed by the transform; {label}", case, key="nothing_to_quantise")
         # model drift: the rewritten graph vs the algorithm model (argument splicing)
@@ -410,7 +432,7 @@ def dynamo_cases(rep: Report, rng: random.Random, kinds: List[str]) -> None:
             r_ref = run_pinned(lambda t: m.reference(t, f, b), x, params, seed)
             if not same(r_t, r_ref):
                 rep.violation(f"simulate_format({cls.__name__}, {f}, {b}) differs bitwise from hand-written straight-through quantisation", case, key=f"dynamo_differs:{cls.__name__}:{kind}")
-            if kind == "lossless" and not same_up_to_accumulation_order(r_t, run_pinned(m, x, params, seed)):
+            if kind == "lossless" and not same_up_to_accumulation_order(r_t, run_pinned(m, x, params, seed), grads64(m, x, seed)):
                 rep.violation(f"simulate_format({cls.__name__}) with a lossless format changes outputs/gradients", case, key="dynamo_lossless")
         # simulate_fp8 == simulate_format(E4M3, E5M2)
         torch.manual_seed(11)
